@@ -25,14 +25,17 @@ RULE = (
 ASSUMPTIONS = ["only string norms are judged (a user-supplied Normalize instance is autoscaled by matplotlib itself)",
                "figures are rendered with the Agg backend and closed after every call"]
 
-OPTS_MAP = ["mode", "norm", "vmin", "vmax", "operation", "cmap"]
-OPTS_H2 = ["mode", "norm", "vmin", "vmax", "operation", "cmap"]
+OPTS_MAP = ["mode", "norm", "vmin", "vmax", "operation", "cmap", "vmin0", "vmax0"]
+OPTS_H2 = ["mode", "norm", "vmin", "vmax", "operation", "cmap", "vmin0", "vmax0"]
 OPTS_H1 = ["bins", "weights", "alpha"]
 SETTINGS = ["neither", "layer", "call", "both"]
 VALUES = {   # (value A, value B): A is given to the layer, B to the call when both are set
     "mode": ("contourf", "contour"), "norm": ("log", "linear"), "vmin": (2.0, 5.0), "vmax": (700.0, 900.0),
     "operation": ("mean", "sum"), "cmap": ("viridis", "magma"), "bins": (7, 13), "alpha": (0.5, 0.8),
+    # values that are set but falsy: "set" means "is not None"
+    "vmin0": (0.0, 5.0), "vmax0": (0, 900.0),
 }
+ALIAS = {"vmin0": "vmin", "vmax0": "vmax"}
 
 
 def plan(tier):
@@ -109,10 +112,13 @@ def _prec(osy, rng, res, fn, settings):
         if opt == "weights":
             continue          # Arrays, built below
         a, b = VALUES[opt]
+        real = ALIAS.get(opt, opt)
+        if real != opt and real in settings:
+            continue          # the plain variant of this option is part of the same joint setting
         if st in ("layer", "both"):
-            lkw[opt] = a
+            lkw[real] = a
         if st in ("call", "both"):
-            ckw[opt] = b
+            ckw[real] = b
     if fn in ("map", "mapthick"):
         mesh, dg = small_mesh(osy, rng)
         lay = dg.layer("temp", **lkw)
@@ -224,10 +230,11 @@ def _judge_common(res, fn, settings, got, lkw, ckw):
         want = {"log": "LogNorm", "linear": "Normalize", None: "Normalize"}[eff]
         if norm_kind(nobj) != want:
             res.violate("precedence-wrong", f"{fn}: norm layer={lkw.get('norm')} call={ckw.get('norm')}: {norm_kind(nobj)}, expected {want}")
-    for opt in ("vmin", "vmax"):
-        if opt in settings:
-            eff = effective(opt, settings[opt], None)
-            if getattr(nobj, opt, "missing") != eff:
+    for key in ("vmin", "vmax", "vmin0", "vmax0"):
+        opt = ALIAS.get(key, key)
+        if key in settings and not (key != opt and opt in settings):
+            eff = effective(key, settings[key], None)
+            if getattr(nobj, opt, "missing") != eff or (eff is not None and getattr(nobj, opt) is None):
                 res.violate("precedence-wrong", f"{fn}: {opt} layer={lkw.get(opt)} call={ckw.get(opt)}: norm.{opt} = "
                             f"{getattr(nobj, opt, None)!r}, expected {eff!r}")
     if "cmap" in settings:
